@@ -59,6 +59,22 @@ func SignatureSchemes(ids []uint16) []signaturehash.Algorithm {
 	return algorithms
 }
 
+// CommonSignatureSchemes returns the peer's signature schemes that the local
+// policy also allows, in the peer's order. An empty local list allows all.
+func CommonSignatureSchemes(remote, local []signaturehash.Algorithm) []signaturehash.Algorithm {
+	if len(local) == 0 {
+		return remote
+	}
+	common := make([]signaturehash.Algorithm, 0, len(remote))
+	for _, scheme := range remote {
+		if slices.Contains(local, scheme) {
+			common = append(common, scheme)
+		}
+	}
+
+	return common
+}
+
 func FindMatchingCipherSuite(a, b []dtlsconfig.CipherSuite) (dtlsconfig.CipherSuite, bool) {
 	for _, p1 := range a {
 		for _, p2 := range b {
